@@ -264,9 +264,10 @@ func GetAttr(v Value, attr Value, args ...Value) (Value, error) {
 		}
 	case reflect.Map:
 		key, ok := convertArg(attr, r.Type().Key())
-		// A slice, map or function can never be a key: looking one up in a map
-		// with an interface key type would panic ("hash of unhashable type").
-		if !ok || !key.Type().Comparable() {
+		// A slice, map or function can never be a key, nor can a value that holds
+		// one behind an interface: looking it up in a map with an interface key
+		// type would panic ("hash of unhashable type").
+		if !ok || !hashable(key) {
 			return nil, fmt.Errorf("getattr: cannot use \"%s\" as key of %T", describe(attr), v)
 		}
 		retval = r.MapIndex(key)
@@ -305,6 +306,30 @@ func GetAttr(v Value, attr Value, args ...Value) (Value, error) {
 		retval = res[0]
 	}
 	return retval.Interface(), nil
+}
+
+// hashable reports whether v can be used as a map key without panicking: its
+// type is comparable and so is everything it holds behind interfaces.
+func hashable(v reflect.Value) bool {
+	switch v.Kind() {
+	case reflect.Slice, reflect.Map, reflect.Func:
+		return false
+	case reflect.Interface:
+		return v.IsNil() || hashable(v.Elem())
+	case reflect.Struct:
+		for i := 0; i < v.NumField(); i++ {
+			if !hashable(v.Field(i)) {
+				return false
+			}
+		}
+	case reflect.Array:
+		for i := 0; i < v.Len(); i++ {
+			if !hashable(v.Index(i)) {
+				return false
+			}
+		}
+	}
+	return true
 }
 
 // describe renders a key or argument for an error message: scalars by value,
